@@ -25,6 +25,10 @@ pub struct Bad {
     pub mode: u8,
     /// "", "lua-missing", "lua-dir", "lua-badutf8", "lua-empty", "ai", "ai-nokey", "ai-emptykey"
     pub special: String,
+    /// the subject block is written on ONE source line of a JavaScript file
+    /// (`/* <block …> */ a, b /* </block> */`): its content has no second physical line
+    #[serde(default)]
+    pub inline: bool,
 }
 
 fn a(k: &str, v: &str) -> (String, Option<String>) {
@@ -44,6 +48,7 @@ fn table() -> Vec<Bad> {
             extra_rules: false,
             mode: 0,
             special: special.into(),
+            inline: false,
         })
     };
     for d in ["up", "ascending", "asc,desc", "1", "asc desc", "descending", "sorted"] {
@@ -132,6 +137,19 @@ pub fn enumerated(thorough: bool) -> Vec<Bad> {
                 }
             }
         }
+        // the same malformation on a block written on one source line (kinds whose verdict does not depend
+        // on the content having several lines)
+        let k = base.kind.as_str();
+        if matches!(k, "sort-direction" | "sort-format" | "line-count" | "check-lua-script") || k.starts_with("regex:") {
+            for mode in 0..3u8 {
+                let mut b = base.clone();
+                b.inline = true;
+                b.position = 1;
+                b.neighbours = if mode == 1 { 3 } else { 0 };
+                b.mode = mode;
+                out.push(b);
+            }
+        }
     }
     out
 }
@@ -161,8 +179,26 @@ fn run_tree(b: &Bad, control: bool, probe: &Probe) -> (String, Outcome) {
     }
     let subject = RuleBlock { attrs, lines: b.lines.clone(), indent: 0 };
     let mut blocks = vec![healthy_block("h1"), healthy_block("h2")];
-    blocks.insert(b.position as usize, subject);
-    let r = render_batch(Host::Sh, &blocks);
+    let subject_file = if b.inline { "m_subject.js" } else { "m_subject.sh" };
+    let mut r = if b.inline {
+        render_batch(Host::Js, &blocks)
+    } else {
+        blocks.insert(b.position as usize, subject.clone());
+        render_batch(Host::Sh, &blocks)
+    };
+    if b.inline {
+        let mut tag = String::from("<block");
+        for (k, v) in &subject.attrs {
+            tag.push(' ');
+            tag.push_str(k);
+            if let Some(v) = v {
+                tag.push('=');
+                tag.push_str(&crate::rules::quote_attr(v));
+            }
+        }
+        tag.push('>');
+        r.text.push_str(&format!("/* {tag} */ {} /* </block> */\nlet after_subject = 1;\n", b.lines.join("")));
+    }
     let sb = if b.mode == 2 { Sandbox::new() } else { Sandbox::with_fake_git() };
     sb.write("nil.lua", super::c11::NIL_LUA.as_bytes());
     sb.write("bad.lua", b"function validate(ctx, c) return nil end -- \xff\xfe\n");
@@ -177,8 +213,8 @@ fn run_tree(b: &Bad, control: bool, probe: &Probe) -> (String, Outcome) {
         sb.write("a_ok.sh", render_batch(Host::Sh, &[healthy_block("n1")]).text.as_bytes());
         paths.push("a_ok.sh");
     }
-    sb.write("m_subject.sh", r.text.as_bytes());
-    paths.push("m_subject.sh");
+    sb.write(subject_file, r.text.as_bytes());
+    paths.push(subject_file);
     if b.neighbours & 2 != 0 {
         sb.write("z_ok.sh", render_batch(Host::Sh, &[healthy_block("n2")]).text.as_bytes());
         paths.push("z_ok.sh");
@@ -247,7 +283,7 @@ pub fn check(b: &Bad, probe: &Probe) -> Verdict {
 }
 
 pub fn run(run: &mut Run) {
-    run.rule = "enumerated: a table of malformations judged invalid by the statement (sort direction, sort format, non-numeric keys with >= 2 keys (5 hand-picked blocks and every 2- and 3-line block over {1, 2, x, n/a, blank} with a non-numeric key, incl. identical neighbours), 7 uncompilable regexes x 5 regex-bearing attributes on blocks with content, 15 bad line-count expressions, colon-less affects on a modified block, unknown severity on a violating block, empty/missing/directory/invalid-UTF-8/empty-file Lua scripts, empty AI condition, missing/empty API key) x placement (first/middle/last block; healthy file before/after/both; other satisfied rules on the block) x mode (scan with paths, interactive scan, new-file diff); each with a control run (malformation repaired) that must be healthy. Non-trivial = the malformed block is not alone/first. Quick runs a covering subset of the placement grid, thorough the full product.".into();
+    run.rule = "enumerated: a table of malformations judged invalid by the statement (sort direction, sort format, non-numeric keys with >= 2 keys (5 hand-picked blocks and every 2- and 3-line block over {1, 2, x, n/a, blank} with a non-numeric key, incl. identical neighbours), 7 uncompilable regexes x 5 regex-bearing attributes on blocks with content, 15 bad line-count expressions, colon-less affects on a modified block, unknown severity on a violating block, empty/missing/directory/invalid-UTF-8/empty-file Lua scripts, empty AI condition, missing/empty API key) x placement (first/middle/last block; healthy file before/after/both; other satisfied rules on the block) x mode (scan with paths, interactive scan, new-file diff); the sort-direction / sort-format / regex / line-count / Lua-script malformations also on a block written on ONE source line of a JavaScript file (content without a second physical line); each with a control run (malformation repaired) that must be healthy. Non-trivial = the malformed block is not alone/first. Quick runs a covering subset of the placement grid, thorough the full product.".into();
     run.assumptions = vec!["valid spellings are never expected to fail: every table entry is invalid by the statement's own wording".into()];
     let thorough = run.tier == crate::engine::Tier::Thorough;
     let items = enumerated(thorough);
